@@ -16,6 +16,7 @@ import SqiProofs.Primes
 import SqiProofs.GfX86Refines
 import SqiProofs.GfX86Inv
 import SqiGen.GfGcd
+import SqiProofs.FiatCheap
 
 namespace SqiProps.C07
 open SqiModel.Gf SqiProofs.GfRef SqiProofs.GfMont SqiProofs.GfFp2
@@ -285,6 +286,35 @@ theorem fp2_batched_inv_zero_counterexample :
 example : dom2 (fun a => a < lvl1.p) (⟨3, 4⟩ : Fp2 Nat) ∧
     fp2_mul (Ref.ops lvl1) (fp2_inv (Ref.ops lvl1) ⟨3, 4⟩) ⟨3, 4⟩ = ⟨Ref.fp_set_one lvl1, 0⟩ := by
   refine ⟨⟨by decide +kernel, by decide +kernel⟩, by decide +kernel⟩
+
+/-! ## fiat-crypto files by translation (tie T)
+
+`SqiGen.Fiat{1,3,5}` are the fiat functions of fp_p5248.c / fp_p65376.c / fp_p27500.c as instruction lists, re-extracted on
+every run by tools/translate/fiat.py (mul, square, add, sub, opp, to/from_montgomery, nonzero, selectznz, to/from_bytes,
+set_one; the translator also checks that fp_add/sub/mul/sqr/tomont/frommont/mont_setone call exactly these). `SqiModel.Fiat.run`
+is the interpreter.  Proved for ALL inputs by symbolic execution (`SqiProofs.FiatExec`) + `omega`: the level-1 `add` program is
+`Ref.fp_add lvl1`; `selectznz` and `set_one` at the three levels.  NOT proved (tied three ways on every run instead — real fiat
+function / interpreter on the extracted program / generic `montMul` model, tools/props/c07.py "fiat-programs"): mul, square,
+to/from_montgomery at all levels, add at levels 3/5, sub, opp, nonzero, to/from_bytes (brute `omega` over the symbolic trace does
+not scale beyond ~17 instructions; a per-round invariant proof is the missing piece). -/
+
+theorem fiat_add_lvl1 (a0 a1 a2 a3 b0 b1 b2 b3 : Nat) (ha0 : a0 < 2^64) (ha1 : a1 < 2^64) (ha2 : a2 < 2^64) (ha3 : a3 < 2^64)
+    (hb0 : b0 < 2^64) (hb1 : b1 < 2^64) (hb2 : b2 < 2^64) (hb3 : b3 < 2^64) :
+    SqiModel.Fiat.evalBase SqiModel.Fiat.W (SqiModel.Fiat.run SqiGen.Fiat1.add [[a0,a1,a2,a3],[b0,b1,b2,b3]]) =
+      Ref.fp_add lvl1 (a0 + 2^64*a1 + 2^128*a2 + 2^192*a3) (b0 + 2^64*b1 + 2^128*b2 + 2^192*b3) :=
+  SqiProofs.FiatCheap.add_correct_1 a0 a1 a2 a3 b0 b1 b2 b3 ha0 ha1 ha2 ha3 hb0 hb1 hb2 hb3
+
+theorem fiat_set_one :
+    SqiModel.Fiat.runLimbs SqiGen.Fiat1.set_one 4 [] = Ref.fp_set_one lvl1 ∧
+    SqiModel.Fiat.runLimbs SqiGen.Fiat3.set_one 6 [] = Ref.fp_set_one lvl3 ∧
+    SqiModel.Fiat.runLimbs SqiGen.Fiat5.set_one 8 [] = Ref.fp_set_one lvl5 :=
+  ⟨SqiProofs.FiatCheap.set_one_correct_1, SqiProofs.FiatCheap.set_one_correct_3, SqiProofs.FiatCheap.set_one_correct_5⟩
+
+theorem fiat_selectznz_lvl1 (c a0 a1 a2 a3 b0 b1 b2 b3 : Nat) (ha0 : a0 < 2^64) (ha1 : a1 < 2^64) (ha2 : a2 < 2^64) (ha3 : a3 < 2^64)
+    (hb0 : b0 < 2^64) (hb1 : b1 < 2^64) (hb2 : b2 < 2^64) (hb3 : b3 < 2^64) :
+    SqiModel.Fiat.run SqiGen.Fiat1.selectznz [[c], [a0,a1,a2,a3], [b0,b1,b2,b3]] =
+      if c % 2 ^ 64 = 0 then [a0,a1,a2,a3] else [b0,b1,b2,b3] :=
+  SqiProofs.FiatCheap.selectznz_correct_1 c a0 a1 a2 a3 b0 b1 b2 b3 ha0 ha1 ha2 ha3 hb0 hb1 hb2 hb3
 
 /-! ## x86 ("broadwell") back-end, value-level model `SqiModel.GfX86`
 
